@@ -16,4 +16,6 @@ cp /repo/Cargo.lock kani/Cargo.lock
 (cd kani && cargo kani -Z stubbing -Z unstable-options --only-codegen --harness scenarios::c07_twin --exact --target-dir ../.build/target-base 2>&1 | tail -1)
 # second dependency build with the 2-slot container model (harnesses named *_c2)
 (cd kani && cargo kani -Z stubbing -Z unstable-options --features cap2 --only-codegen --harness scenarios::c13_twin_c2 --exact --target-dir ../.build/target-base-cap2 2>&1 | tail -1)
+# third dependency build with the 1-slot container model (harnesses named *_c1)
+(cd kani && cargo kani -Z stubbing -Z unstable-options --features cap1 --only-codegen --harness scenarios::c13_twin_c1 --exact --target-dir ../.build/target-base-cap1 2>&1 | tail -1)
 echo setup done
